@@ -509,7 +509,39 @@ def _free_consts(e, acc=None, seen=None):
     return acc
 
 
+def _outer_apps(e, acc, seen):
+    """outermost applications of uninterpreted functions (EXP, LOG, ...) and other non-polynomial operators"""
+    if e.get_id() in seen:
+        return
+    seen.add(e.get_id())
+    if not z3.is_app(e):
+        return
+    k = e.decl().kind()
+    if k in (z3.Z3_OP_ADD, z3.Z3_OP_SUB, z3.Z3_OP_MUL, z3.Z3_OP_UMINUS, z3.Z3_OP_DIV, z3.Z3_OP_POWER):
+        for c in e.children():
+            _outer_apps(c, acc, seen)
+    elif e.num_args() > 0:
+        acc[e.get_id()] = e
+
+
+def _abstract_pair(a, b):
+    """a and b with every outermost non-polynomial sub-term replaced by one fresh constant per distinct sub-term (same table for both)"""
+    acc = {}
+    seen = set()
+    _outer_apps(a, acc, seen)
+    _outer_apps(b, acc, seen)
+    if not acc:
+        return a, b
+    pairs = [(t, z3.Real('abs!%d' % i)) for i, t in enumerate(acc.values())]
+    return z3.substitute(a, *pairs), z3.substitute(b, *pairs)
+
+
 def _poly_identical(a, b):
+    a, b = _abstract_pair(a, b)
+    return _poly_identical0(a, b)
+
+
+def _poly_identical0(a, b):
     """a == b as polynomials / rational functions with constant denominators (sum-of-monomials normal form); False when not shown"""
     try:
         return z3.is_true(z3.simplify(a - b == 0, som=True, som_blowup=100000))
@@ -519,6 +551,7 @@ def _poly_identical(a, b):
 
 def _const_ratio(a, b):
     """positive rational k with a == k*b as polynomials, or None (guess k at a pseudo-random rational point, confirm symbolically)"""
+    a, b = _abstract_pair(a, b)
     vs = list(_free_consts(a).values())
     if not vs:
         return None
@@ -533,7 +566,7 @@ def _const_ratio(a, b):
     if fb == 0 or fa == 0 or fa / fb <= 0:
         return None
     k = fa / fb
-    return k if _poly_identical(a, rv(k) * b) else None
+    return k if _poly_identical0(a, rv(k) * b) else None
 
 
 def _const_sqrt(k):
@@ -1123,11 +1156,22 @@ class NPProxy(types.ModuleType):
 
     def nanmean(self, x, *a, **k):
         if _has_sym(x):
-            vals = [v for v in np.asarray(x, dtype=object).flat if _is_sym(v) or not math.isnan(v)]
-            s = 0.0
-            for v in vals:
-                s = s + v
-            return s / len(vals)
+            def one(seq):
+                vals = [v for v in seq if _is_sym(v) or not math.isnan(v)]
+                if not vals:
+                    return float('nan')
+                s = vals[0]
+                for v in vals[1:]:
+                    s = s + v
+                return s / len(vals)
+            x = np.asarray(x, dtype=object)
+            axis = k.get('axis', a[0] if a else None)
+            if axis is None:
+                return one(list(x.flat))
+            if x.ndim == 2 and axis in (0, 1):
+                rows = x if axis == 1 else x.T
+                return _wrap(np.array([one(list(r)) for r in rows] + [None], dtype=object)[:-1])
+            raise Unsupported('nanmean over axis %r of a %d-d symbolic array' % (axis, x.ndim))
         return np.nanmean(x, *a, **k)
 
     def std(self, x, *a, **k):
